@@ -69,6 +69,13 @@ def unify : Nat → Axis → Axis → St → Bool × St
       | .prod es, .prod fs =>
         if zeroList es then (true, st)
         else unifyProd fuel es.reverse fs.reverse st
+      -- a sum against a proper product: the sum is walked as a product of one factor (the product's other factors must
+      -- all have one element)
+      | .prod (e1 :: es), .sum b t a =>
+        if zeroList (e1 :: es) then (true, st)
+        else unifyProd fuel (e1 :: es).reverse [.sum b t a] st
+      | .sum b t a, .prod (f1 :: fs) =>
+        unifyProd fuel [.sum b t a] (f1 :: fs).reverse st
       | .sum b1 t1 a1, .sum b2 t2 a2 =>
         if b1 == b2 && a1 == a2 then unify fuel t1 t2 st else (false, st)
       | .phys v _, f => (true, bind st v f)
@@ -77,7 +84,6 @@ def unify : Nat → Axis → Axis → St → Bool × St
         if b == 0 && a == 0 then unify fuel unitAxis t st else (false, st)
       | .sum b t a, .prod [] =>
         if b == 0 && a == 0 then unify fuel unitAxis t st else (false, st)
-      | _, _ => (false, st)
 /-- the `while es and fs:` loop; both lists are stacks (top = the LAST factor), then
 `all(x.unify(unitAxis) for x in chain(es, fs))` -/
 def unifyProd : Nat → List Axis → List Axis → St → Bool × St
@@ -88,6 +94,15 @@ def unifyProd : Nat → List Axis → List Axis → St → Bool × St
     if m == n then
       match unify fuel e9 f9 st with
       | (true, st1) => unifyProd fuel es fs st1
+      | r => r
+    else if n == 1 then
+      -- a factor with one element is the unit axis in disguise: it takes no part in the other side's factor
+      match unify fuel f9 unitAxis st with
+      | (true, st1) => unifyProd fuel (e9 :: es) fs st1
+      | r => r
+    else if m == 1 then
+      match unify fuel e9 unitAxis st with
+      | (true, st1) => unifyProd fuel es (f9 :: fs) st1
       | r => r
     else if m < n then
       if n % m != 0 then (false, st)
